@@ -65,6 +65,7 @@ var g *gworld
 const (
 	pollNone    = 0 // poll returns nothing: unaddPoller
 	pollRecords = 1 // poll returns records: application later calls AllowRebalance
+	pollHold    = 2 // poll returns records; the application polls again BEFORE calling AllowRebalance
 )
 
 func gatePoller(c *consumer, kinds []int) func() {
@@ -97,6 +98,14 @@ func gatePoller(c *consumer, kinds []int) func() {
 			g.holding++
 			vrt.Yield("process-records")
 			vrt.Assert(g.multi || g.inRebalance == 0, "rebalance-during-outstanding-poll", "rebalance entered its critical section while a poll that returned records is outstanding")
+			if k == pollHold {
+				// "You can poll many times before calling [AllowRebalance]":
+				// the records stay outstanding across the following polls.
+				continue
+			}
+			if !g.multi {
+				g.holding = 1 // this AllowRebalance releases every earlier held poll of this goroutine too
+			}
 			// Done with the records: this poller allows rebalances. With ONE
 			// polling goroutine that is exactly the documented protocol. With
 			// several, AllowRebalance releases every poller by contract ("all
@@ -108,6 +117,11 @@ func gatePoller(c *consumer, kinds []int) func() {
 			if !g.multi || g.holding == 0 {
 				g.registered = 0
 			}
+			c.allowRebalance()
+		}
+		if !g.multi && g.holding > 0 { // held polls at the end of the script: the application allows rebalances now
+			vrt.Assert(g.inRebalance == 0, "rebalance-during-outstanding-poll", "rebalance entered its critical section while polls that returned records are outstanding")
+			g.holding, g.registered = 0, 0
 			c.allowRebalance()
 		}
 	}
@@ -245,6 +259,10 @@ func init() {
 	harnesses["G-2poll-1reb"] = gateHarness([][]int{{pollRecords}, {pollNone}}, []int{1}, false, false)
 	harnesses["G-1poll-2reb"] = gateHarness([][]int{{pollNone, pollRecords}}, []int{1, 1}, true, false)
 	harnesses["G-2poll-2reb"] = gateHarness([][]int{{pollRecords}, {pollRecords}}, []int{1, 1}, false, false)
+	// several polls before one AllowRebalance (documented use): an empty poll's
+	// release must not let a parked rebalance through while earlier records are held
+	harnesses["G-hold-1reb"] = gateHarness([][]int{{pollHold, pollNone, pollHold, pollNone}}, []int{1}, false, false)
+	harnesses["G-hold-2reb"] = gateHarness([][]int{{pollHold, pollNone, pollRecords}}, []int{1, 1}, true, false)
 	harnesses["M-3lock"] = mutexHarness(3, false)
 	harnesses["M-2lock-try"] = mutexHarness(2, true)
 	harnesses["RW-1w-2r"] = rwHarness(1, 2, false)
@@ -297,12 +315,12 @@ func main() {
 		return
 	}
 	plans := []plan{
-		{"G-1poll-1reb", 3, 5}, {"G-2poll-1reb", 3, 4}, {"G-1poll-2reb", 3, 4}, {"G-2poll-2reb", 2, 3},
+		{"G-1poll-1reb", 3, 5}, {"G-hold-1reb", 3, 5}, {"G-hold-2reb", 2, 4}, {"G-2poll-1reb", 3, 4}, {"G-1poll-2reb", 3, 4}, {"G-2poll-2reb", 2, 3},
 		{"M-3lock", 3, 5}, {"M-2lock-try", 3, 5},
 		{"RW-1w-2r", 3, 4}, {"RW-2w-1r", 3, 4}, {"RW-1w-1r-try", 3, 4},
 	}
 	r := ev.New("C31", "model_checking")
-	r.Rule("engine S: every interleaving, up to the stated preemption bound, of pollers (polls returning records followed by AllowRebalance, empty polls released by unaddPoller) and rebalancers over the seven gate methods extracted from consumer.go, and of lockers/readers/TryLock callers over the channel Mutex/RWMutex extracted from synctest_mutex.go (channel operations modelled by vrt, every mutex/cond/channel operation a scheduling point); deadlock = no enabled thread with unfinished threads. distinct = distinct outcome tuples per harness")
+	r.Rule("engine S: every interleaving, up to the stated preemption bound, of pollers (polls returning records followed by AllowRebalance, several polls held before one AllowRebalance, empty polls released by unaddPoller) and rebalancers over the seven gate methods extracted from consumer.go, and of lockers/readers/TryLock callers over the channel Mutex/RWMutex extracted from synctest_mutex.go (channel operations modelled by vrt, every mutex/cond/channel operation a scheduling point); deadlock = no enabled thread with unfinished threads. distinct = distinct outcome tuples per harness")
 	r.Assume("vrt primitives model sync.Mutex/Cond and Go channels/select faithfully", "gate struct stubs carry the same fields as kgo.consumer/cfg", "extraction rewrites only concurrency syntax")
 	deadline := ev.Deadline(70*time.Second, 15*time.Minute)
 	per := map[string]any{}
